@@ -45,7 +45,7 @@ func TestRefused(t *testing.T) {
 	want := map[string]string{
 		"tx.Div": "operation /", "tx.StoreParam": "not only loaded from", "tx.Alloc": "MakeSlice",
 		"tx.Sub": "Slice", "tx.Dyn": "has no translation", "tx.Recursive": "recursion", "tx.CallsRefused": "callee tx.Div is unsupported",
-		"tx.FillLoop": "not only loaded from", "tx.Counter.Drain": "a loop in a method on a state record",
+		"tx.FillLoop": "not only loaded from",
 	}
 	for n, why := range want {
 		r := m[n]
